@@ -61,6 +61,9 @@ def generate(rng, tier):
         cases.append({"bb": "dcat", "cats": 3, "tails": 7, "files": 7})
     # black box over SSH: a client that is killed in the middle of a transfer (its session is cancelled while the
     # server is sending) must not keep the only cat slot: the next read has to run
+    # serverless follow mode: the tail limit, not the cat limit, bounds the files followed at once
+    cases.append({"bb": "dtail", "cats": 3, "tails": 1, "files": 3})
+    cases.append({"bb": "dtail", "cats": 1, "tails": 2, "files": 4})
     cases.append({"bb": "cancel", "cats": 1, "maxlen": 16})
     cases.append({"bb": "cancel", "cats": 1, "maxlen": 1048576})
     # a grep whose output is almost only trailing context / leading context of far-apart matches, cancelled the same way
@@ -108,13 +111,13 @@ def _blackbox(c, k):
     for j in range(c["files"]):
         p = os.path.realpath(os.path.join(env.dir, "big%d.log" % j))
         with open(p, "wb") as f:
-            f.write(line * 60000)          # 12 MB
+            f.write(line * (60000 if c["bb"] == "dcat" else 10))          # 12 MB (a followed file stays open anyway)
         paths.append(p)
     cmd = [os.path.join(srv.BIN, c["bb"]), "--cfg", cfg, "--plain", "--files", ",".join(paths)]
     p = subprocess.Popen(cmd, stdin=subprocess.DEVNULL, stdout=subprocess.DEVNULL, stderr=subprocess.DEVNULL, env=env.client_env(), cwd=env.dir)
     most, seen, samples = 0, set(), 0
     t0 = time.time()
-    while p.poll() is None and time.time() - t0 < 120:
+    while p.poll() is None and time.time() - t0 < (120 if c["bb"] == "dcat" else 3.0):
         try:
             fds = os.listdir("/proc/%d/fd" % p.pid)
         except OSError:
@@ -165,7 +168,13 @@ def judge(cases, obs, tier):
                              "file did not run: %s - the cancelled session keeps its limiter slot") % (c["maxlen"], c["cats"], o["rounds"])
             continue
         if "bb" in c:
-            if o["rc"] != 0:
+            if c["bb"] == "dtail":
+                if o["max_open"] > c["tails"]:
+                    oracle[i] = "serverless dtail over %d files: %d files were followed at once under MaxConcurrentTails=%d (MaxConcurrentCats=%d)" % (
+                        c["files"], o["max_open"], c["tails"], c["cats"])
+                elif o["max_open"] < min(c["tails"], c["files"]):
+                    oracle[i] = "serverless dtail over %d files followed only %d at once although MaxConcurrentTails=%d allows more" % (c["files"], o["max_open"], c["tails"])
+            elif o["rc"] != 0:
                 oracle[i] = "serverless %s ended with status %s" % (c["bb"], o["rc"])
             elif o["max_open"] > c["cats"]:
                 oracle[i] = "serverless %s over %d files: %d files were open at once under MaxConcurrentCats=%d (MaxConcurrentTails=%d)" % (
